@@ -49,6 +49,9 @@ type World struct {
 	// TrustedStore: subscribers made from here on mark their link system's
 	// storage as trusted.
 	TrustedStore bool
+	// AppHash: subscribers made from here on have a link system that knows
+	// one hash function more than go-multihash's registry
+	AppHash bool
 }
 
 func NewWorld(r *simkit.Run) *World {
@@ -90,6 +93,10 @@ type PubOpts struct {
 	// LongDigest: Proto asks for a digest longer than the registered
 	// fixed-size hasher of its function produces (see storeNode).
 	LongDigest bool
+	// AppHash: the chain's CIDs carry a hash code that only an application's
+	// link system knows (simkit.AppOnlyHash); the publisher is "of another
+	// make" as with LongDigest and serves the stored bytes as they are.
+	AppHash bool
 	// LongDigestFor, if set, says which advertisements (by chain index, with
 	// their entries) have such CIDs; the others have ordinary ones.
 	LongDigestFor func(ad int) bool
@@ -118,6 +125,9 @@ func (w *World) NewPublisher(o PubOpts) *PubNode {
 	}
 	w.Names.Set(string(id.ID), o.Name)
 	st := simkit.NewStore(w.R, o.Name+".store")
+	if o.AppHash {
+		st.AppHash = simkit.AppOnlyHash
+	}
 	p := &PubNode{W: w, Name: o.Name, Ident: id, Store: st, LS: st.LinkSystem(), Opts: o, proto: schema.Linkproto}
 	if o.Proto != nil {
 		p.proto = *o.Proto
@@ -191,7 +201,7 @@ func (p *PubNode) ServeHTTP(w http.ResponseWriter, r *http.Request) {
 		json.NewEncoder(w).Encode(map[string]any{string(ipnisync.ProtocolID): map[string]string{"path": pth}})
 		return
 	}
-	if p.Opts.LongDigest {
+	if p.Opts.LongDigest || p.Opts.AppHash {
 		// The library's publisher loads what it serves through its link
 		// system, which cannot hash to such lengths: a publisher of another
 		// make serves the signed head and the stored bytes as they are.
@@ -384,6 +394,9 @@ func (w *World) NewSubscriber(opts ...dagsync.Option) *SubNode {
 // NewSubscriberOn creates the subscriber on a libp2p host (nil = none).
 func (w *World) NewSubscriberOn(h host.Host, opts ...dagsync.Option) *SubNode {
 	st := simkit.NewStore(w.R, "sub.store")
+	if w.AppHash {
+		st.AppHash = simkit.AppOnlyHash
+	}
 	s := &SubNode{W: w, Store: st, LS: st.LinkSystem(), FailAt: map[cid.Cid]error{}}
 	// an application that trusts its own store (what it reads back from it
 	// is not hashed again): what comes from a publisher is checked all the
